@@ -444,6 +444,12 @@ class Assign(Statement, AssignBase):
     def expression(self):
         return self.rhs
 
+    def get_read_variables(self):
+        result = super().get_read_variables()
+        for _ident, start, end in self.loops:
+            result = result | get_variables(start) | get_variables(end)
+        return result
+
     def map_expressions(self, mapper, include_lhs=True):
         return (super()
                 .map_expressions(mapper, include_lhs=include_lhs)
